@@ -155,6 +155,44 @@ pub fn table() -> &'static Vec<Entry> {
     })
 }
 
+/// Principal branch of Lambert W by Halley's method from a branch-point series / logarithmic first guess, iterated
+/// until the iterate is stationary. None when it does not settle.
+pub fn ref_w0(x: f64) -> Option<f64> {
+    if x == 0.0 {
+        return Some(0.0);
+    }
+    if !(x >= -(-1.0f64).exp()) || !x.is_finite() {
+        return None;
+    }
+    let mut w = if x < -0.25 {
+        let p = (2.0 * (std::f64::consts::E * x + 1.0)).max(0.0).sqrt();
+        -1.0 + p - p * p / 3.0 + 11.0 / 72.0 * p * p * p
+    } else if x < 3.0 {
+        let l = (1.0 + x).ln();
+        l * (1.0 - (1.0 + l).ln() / (2.0 + l))
+    } else {
+        let l = x.ln();
+        l - l.ln() + l.ln() / l
+    };
+    for _ in 0..200 {
+        let e = w.exp();
+        let f = w * e - x;
+        let d = e * (w + 1.0) - (w + 2.0) * f / (2.0 * w + 2.0);
+        if d == 0.0 || !d.is_finite() {
+            return None;
+        }
+        let nw = w - f / d;
+        if !nw.is_finite() {
+            return None;
+        }
+        if (nw - w).abs() <= 4e-16 * nw.abs().max(1e-300) {
+            return Some(nw);
+        }
+        w = nw;
+    }
+    None
+}
+
 /// grid of argument texts (decimal strings, so that every evaluator reads exactly the same number)
 fn grid1(en: &Entry) -> Vec<String> {
     let int_only = en.ev == Ev::I64;
@@ -168,7 +206,20 @@ fn grid1(en: &Entry) -> Vec<String> {
             "0.3678", "(-0.3678)", "(-0.36)", "(-0.2)", "50", "1000", "0.0001", "0.0", "(-0)", "(-0.0)", "1.0", "2.0", "3.0", "4.0", "5.0", "10.0", "20.0", "21.0", "(-1.0)", "(-3.0)", "170.0",
         ]
     };
-    general.into_iter().map(|s| s.to_string()).collect()
+    let mut out: Vec<String> = general.into_iter().map(|s| s.to_string()).collect();
+    if !int_only {
+        // function-specific edges (kept away from the other functions: ln next to 1 is too ill-conditioned for a double
+        // reference to judge a decimal argument)
+        let extra: &[&str] = match en.canon {
+            // next to whole numbers: a result snapped to the integer case is off by digamma(n+1)*delta
+            "fact" => &["3.0000000008", "6.0000000009", "20.0000000008", "19.9999999992", "150.0000000009", "100.000000002", "2.999999998", "1.0000000009", "0.9999999991", "10.00000001"],
+            // next to the branch point -1/e
+            "w" => &["(-0.36783)", "(-0.36785)", "(-0.3678)", "(-0.36781)", "(-0.367)", "(-0.3675)", "(-0.36787)", "(-0.35)", "(-0.3)", "(-0.36)", "(-0.365)"],
+            _ => &[],
+        };
+        out.extend(extra.iter().map(|s| s.to_string()));
+    }
+    out
 }
 
 fn render(en: &Entry, args: &[String]) -> String {
@@ -331,7 +382,7 @@ impl Prop for C10Prop {
         "C10"
     }
     fn rule(&self) -> String {
-        "Cases are (evaluator, spelling, argument texts): the finite table of every README function name and alias of arity 1 and 2 (ilog excepted; aggregates are C11; eval_complex: sub-check `complex`, every name/alias, ^, superscripts, ° and rad over real arguments of both signs, imaginary and generic complex arguments, judged by C08's principal-branch reference at 1e-9, either one-sided limit accepted exactly on a cut), the postfix operators !, ° and rad, the ⌊⌋ ⌈⌉ brackets and the constants, per evaluator (about 170 pairs) x a fixed grid of about 65 decimal-string arguments over each domain incl. edges, halves, large and negative values (arity 2: grid^2 thinned), exhaustive; then random arguments with log-uniform magnitudes (<= 8 significant digits, so every evaluator reads exactly the same number). Oracles: exact functions compared exactly (round ties away from zero, ties to even in eval_decimal; sgn(0)=0; n! exact for n<=22); the others within 1e-9 relative of the host libm on the same argument (tgamma for non-integer factorials, skipping points within 0.01 of a pole); eval_i64 real-valued functions within 1 of the real result when below 2^53; Lambert W by its defining identity w*e^w = x within 1e-9*max(|x|,1e-300) and w >= -1; constants bit-exact (f64, number) / 1e-27 (decimal). non-trivial (discriminating) = the expected value differs by more than 1e-6 relative from the argument(s) and from the value of at least three quarters of the other same-arity functions of that evaluator defined at that point (Lambert W and constants always count); distinct by (evaluator, input).".into()
+        "Cases are (evaluator, spelling, argument texts): the finite table of every README function name and alias of arity 1 and 2 (ilog excepted; aggregates are C11; eval_complex: sub-check `complex`, every name/alias, ^, superscripts, ° and rad over real arguments of both signs, imaginary and generic complex arguments, judged by C08's principal-branch reference at 1e-9, either one-sided limit accepted exactly on a cut), the postfix operators !, ° and rad, the ⌊⌋ ⌈⌉ brackets and the constants, per evaluator (about 170 pairs) x a fixed grid of about 65 decimal-string arguments over each domain incl. edges, halves, large and negative values (arity 2: grid^2 thinned), exhaustive; then random arguments with log-uniform magnitudes (<= 8 significant digits, so every evaluator reads exactly the same number). Oracles: exact functions compared exactly (round ties away from zero, ties to even in eval_decimal; sgn(0)=0; n! exact for n<=22); the others within 1e-9 relative of the host libm on the same argument (tgamma for non-integer factorials, skipping points within 0.01 of a pole); eval_i64 real-valued functions within 1 of the real result when below 2^53; Lambert W by its defining identity w*e^w = x within 1e-9*max(|x|,1e-300) and w >= -1, and - the identity being insensitive near w = -1 - by its value against an independent Halley iteration wherever 1+W >= 1e-3; constants bit-exact (f64, number) / 1e-27 (decimal). non-trivial (discriminating) = the expected value differs by more than 1e-6 relative from the argument(s) and from the value of at least three quarters of the other same-arity functions of that evaluator defined at that point (Lambert W and constants always count); distinct by (evaluator, input).".into()
     }
     fn assumptions(&self) -> Vec<String> {
         vec!["the host libm (glibc through Rust std, tgamma through FFI) is the reference for the approximate functions".into()]
@@ -424,6 +475,16 @@ impl Prop for C10Prop {
             let ok = if x > 1e300 { (w + w.ln() - x.ln()).abs() <= 1e-9 } else { resid <= 1e-9 * x.abs().max(1e-300) };
             if !(ok && w >= -1.0) {
                 return Err(Failure::new(sig("identity"), format!("w >= -1 with |w*e^w - {:?}| <= 1e-9*|x|", x), format!("w = {:?}, w*e^w = {:?}", w, w * w.exp())));
+            }
+            // the value itself: the identity is insensitive near w = -1 (d(w e^w)/dw = 0 there), so W is also compared with
+            // an independent Halley iteration run to convergence in f64, wherever that is conditioned well enough
+            // (1 + W >= 1e-3) for a 1e-9 claim
+            if x < 1e300 {
+                if let Some(wr) = ref_w0(x) {
+                    if wr + 1.0 >= 1e-3 && !f64r::close(w, wr, 1e-9) && !(wr == 0.0 && w.abs() < 1e-300) {
+                        return Err(Failure::new(sig("value"), format!("W0({:?}) = {:?} within 1e-9 relative", x, wr), format!("w = {:?}", w)));
+                    }
+                }
             }
             sc.class(&format!("{}:{}", ev.name(), en.spelling));
             if x != 0.0 {
